@@ -447,7 +447,7 @@ func genC02(c *Ctx) {
 
 // ---------------------------------------------------------------- C03
 
-var c03Contents = []string{"", "x", "a&b", "a&amp;b", "<b>x</b>", "\"><script>alert(1)</script>", "' onmouseover='alert(1)", "\" onmouseover=\"alert(1)", "</textarea><script>alert(1)</script>",
+var c03Contents = []string{"", "x", "a&b", "a&amp;b", "\xff\" onmouseover=\"alert(1)\" x=\"yy", "a\xc3'><script>alert(1)</script>zzzz", "<b>x</b>", "\"><script>alert(1)</script>", "' onmouseover='alert(1)", "\" onmouseover=\"alert(1)", "</textarea><script>alert(1)</script>",
 	"</script>", "javascript:alert(1)", "https://x.example/a?b=c&d=e", "color:red;", "p{color:red}", "id1", "a b", "\x00", "\xff", "é", "&#34;", "&quot;x", "x\ny", "ltr", "async", "{{.}}", "`", "="}
 
 var c03Contexts = [][2]string{{"div", ""}, {"p", ""}, {"textarea", ""}, {"title", ""}, {"script", ""}, {"style", ""}, {"b", ""},
@@ -469,7 +469,7 @@ func genC03(c *Ctx) {
 	}
 	contents := c03Contents
 	if !c.thorough {
-		contents = contents[:14]
+		contents = contents[:16]
 	}
 	for _, ctx := range c03Contexts {
 		forms := []string{"content"}
@@ -520,26 +520,39 @@ func genC03(c *Ctx) {
 								hw.add(Step{Op: "parse", H: 0, Text: c03Warm[c.rng.Intn(len(c03Warm))]})
 								hw.add(Step{Op: "exec", H: 0, Data: &Val{Kind: "s", S: "w"}})
 							}
+							// helper variant: the action lives in a helper that is executed on its own first and then called from
+							// the context under test (the derived copy must not inherit the rewriting done for element content)
+							helper := (form == "dq" || form == "sq" || form == "content") && c.rng.Intn(4) == 0
+							runOne := func(hb *histBuilder, v *Val) string {
+								hb.add(Step{Op: "new", H: 0, Name: "root"})
+								if !helper {
+									if hb.add(Step{Op: "parse", H: 0, Text: text}) == "" {
+										return ""
+									}
+									return hb.add(Step{Op: "exec", H: 0, Data: v})
+								}
+								t2 := "{{define \"label\"}}{{.}}{{end}}{{define \"c\"}}" + strings.Replace(text, "{{.}}", "{{template \"label\" .}}", 1) + "{{end}}"
+								if hb.add(Step{Op: "parse", H: 0, Text: t2}) == "" {
+									return ""
+								}
+								hb.add(Step{Op: "exect", H: 0, Name: "label", Data: v})
+								return hb.add(Step{Op: "exect", H: 0, Name: "c", Data: v})
+							}
 							plainFirst := c.rng.Intn(2) == 0
 							var r2 string
 							h2 := newHistBuilder()
 							if plainFirst {
-								h2.add(Step{Op: "new", H: 0, Name: "root"})
-								h2.add(Step{Op: "parse", H: 0, Text: text})
-								r2 = h2.add(Step{Op: "exec", H: 0, Data: plain})
+								r2 = runOne(h2, plain)
 							}
 							h1 := newHistBuilder()
-							h1.add(Step{Op: "new", H: 0, Name: "root"})
-							if h1.add(Step{Op: "parse", H: 0, Text: text}) == "" {
+							r1 := runOne(h1, typed)
+							if r1 == "" {
 								continue
 							}
-							r1 := h1.add(Step{Op: "exec", H: 0, Data: typed})
 							if !plainFirst {
-								h2.add(Step{Op: "new", H: 0, Name: "root"})
-								h2.add(Step{Op: "parse", H: 0, Text: text})
-								r2 = h2.add(Step{Op: "exec", H: 0, Data: plain})
+								r2 = runOne(h2, plain)
 							}
-							c.emit("tmpl.c03", []string{form, ctx[0], ctx[1], pre, tag, cont, h1.hist(), h2.hist()}, r1+"~"+r2, strings.HasPrefix(r1, "ok"), form+"-"+tag)
+							c.emit("tmpl.c03", []string{form, ctx[0], ctx[1], pre, tag, cont, h1.hist(), h2.hist()}, r1+"~"+r2, strings.HasPrefix(r1, "ok"), map[bool]string{true: "helper-", false: ""}[helper]+form+"-"+tag)
 						}
 					}
 				}
